@@ -35,14 +35,14 @@ type oracleReq struct {
 var startWall = time.Now()
 
 // currentCall names the library call the (single running) task is inside, for the watchdog report.
-var currentCall [32]atomic.Value
+var currentCall [64]atomic.Value
 
 func setCall(s string) {
 	id := simrt.CurTask()
 	if id < 0 {
 		id = 0
 	}
-	currentCall[id%32].Store(s)
+	currentCall[id%64].Store(s)
 }
 
 var oracleMs sync.Map
@@ -103,7 +103,7 @@ func main() {
 		if id < 0 {
 			id = 0
 		}
-		cur, _ := currentCall[id%32].Load().(string)
+		cur, _ := currentCall[id%64].Load().(string)
 		if os.Args[1] == "run" && cur != "" {
 			emit(&spec.Result{Status: "stuck", Internal: fmt.Sprintf("no return after %d s of wall clock", wd),
 				Violation: &spec.Violation{Class: "NO_PROGRESS", Key: "call did not return: " + strings.SplitN(strings.SplitN(cur, "(", 2)[0], " ", 2)[0],
